@@ -24,6 +24,12 @@ def c04_rt(tier, seed):
     return run_rt("c04_rt.py", "aioftp.server:User.get_permissions::User.get_permissions", tier, seed, 2000, 100000)
 
 
+def c08_rt(tier, seed):
+    from pyvc.rtcheck import run_rt
+
+    return run_rt("c08_rt.py", "rt:c08", tier, seed, 1500, 60000)
+
+
 PROPS = {
     "C02": {
         "modules": ["contracts.c02_paths"],
@@ -144,6 +150,20 @@ PROPS = {
         "trusted_base": [T_PY, T_ENGINE, T_SOLVER, T_AIO, "T-str / T-enc (rstrip lemma, lower uninterpreted, encode/decode inverse)", "logging: %-formatting of the record arguments happens inside the logging module; the payload of a record is its argument tuple"],
         "assumptions": ["non-interference is shown per sink: each record emitted while the password is in scope equals a term over public data and len(password) only", "passwords the line protocol can carry: non-empty, no trailing whitespace (otherwise the server strips them before they become a password)"],
         "not_decided": ["third-party logging handlers / filters", "text of exceptions logged by 'dispatcher caught exception' (UnicodeDecodeError shows the offending byte)", "a PASS separated from its argument by something other than one space is not a login command on either side"],
+        "explanation": "",
+    },
+    "C08": {
+        "modules": ["contracts.c08_names", "contracts.c20_logs", "contracts.server_units"],
+        "unit_filter": ["Server.parse_command", "BaseClient.parse_mlsx_line", "Server.build_mlsx_string", "Server.pwd#SEQ", "lemma:first-space-splits-facts-from-name"],
+        "extra": ["contracts.index.c08_rt"],
+        "level": "proof",
+        "trusted_base": [T_PY, T_ENGINE, T_SOLVER, T_PATH, "T-str / T-enc / T-time(strftime of an all-numeric format yields digits)"],
+        "assumptions": ["carrier set Name of the property: non-empty text without '/', NUL, CR, LF, not '.'/'..', no trailing whitespace"],
+        "not_decided": [
+            "LIST-fallback name round trip (build_list_string / parse_list_line_unix) and the PWD decoder parse_directory_response are covered only by the bounded run-time checker rt/c08_rt.py (labelled bounded)",
+            "the client-side command constructors ('CWD ' + str(path) etc.) are plain concatenations; their server-side split is Server.parse_command's contract",
+            "what the OS does with such names",
+        ],
         "explanation": "",
     },
     "C06": {
